@@ -353,6 +353,7 @@ class Machine:
         self.used_contracts = {}  # key -> count
         self.depth = 0
         self.trace = None
+        self.generic_stack = []     # instantiations of type parameters of the generic functions being executed
         self._pty = self.defs.pty_cache
 
     # -- memory -------------------------------------------------------------
@@ -610,7 +611,11 @@ class Machine:
         segs = [re.match(r'^[A-Za-z_][A-Za-z0-9_]*', s).group(0) if re.match(r'^[A-Za-z_]', s) else s for s in segs]
         last = segs[-1]
         prev = segs[-2] if len(segs) >= 2 else None
+        if prev is not None and prev in self.adts.enums:
+            prev = self.adts.resolve_enum(prev, last) or prev
         dest_head = head_ident(dest_ty) if dest_ty else None
+        if dest_head is not None and dest_head in self.adts.enums:
+            dest_head = self.adts.resolve_enum(dest_head, last) or dest_head
         if kind == 'adt_struct':
             fields = rv.b
             if prev in self.adts.enums and any(v[0] == last for v in self.adts.enums[prev]):
@@ -1106,6 +1111,14 @@ class Machine:
             cached = defs.cache[func] = (fn, c, getattr(ci, 'key', None))
         fn, c, key = cached
         if fn is not None:
+            # explicit instantiation in the call text: f::<A, {closure..}>  ->  first non-lifetime argument instantiates `T`
+            tys = [g for g in (ci.generics or []) if not g.startswith("'") and not g.startswith('{closure') and not g.startswith('impl ')]
+            if tys and '(_' in fn.header and ' T' in fn.header or (tys and '<T' in fn.header):
+                self.generic_stack.append({'T': head_ident(tys[0])})
+                try:
+                    return self.call_fn(fn, args)
+                finally:
+                    self.generic_stack.pop()
             return self.call_fn(fn, args)
         # the cache stores the resolution (key); the contract itself comes from this machine's table (harness-local forks)
         c = self.contracts.table.get(key, c)
@@ -1189,6 +1202,12 @@ class Machine:
         if h in INT_BITS:
             return z3.BitVec('uf_' + key, INT_BITS[h])
         raise EncoderGap('%s applied to an opaque string (result type %s)' % (name, dest_ty))
+
+    def generic_lookup(self, name):
+        for env in reversed(self.generic_stack):
+            if name in env:
+                return env[name]
+        return None
 
     # -- panics (for contracts) ---------------------------------------------------
     def panic_if(self, cond, msg):
